@@ -57,6 +57,9 @@ func c14CheckSegs(c *core.Ctx, w *sim.World, udp bool, mtu int, replay interface
 
 func init() {
 	core.RegisterExtra("C14", func(c *core.Ctx) {
+		if !stageOn("wire") {
+			return
+		}
 		c.Correspondence("wire stage: payload sizes of every emitted segment (TCP and UDP sessions, boundary write sizes 1019..1025 / 32759..32769 / 65536) vs documented limits and the real maxFragmentSize")
 		n := c.N(8, 80)
 		cases := make([]c01Case, n)
